@@ -1,8 +1,8 @@
 (* C06 -- the built-in Targets behave as a content map plus a reference -> descriptor map.
    Only statements closed by [exact]; the lemmas live in Proofs/Stores.v, the executable
    models (memory store, OCI layout store, abstract specification) in Model/Stores.v. *)
-From Oras Require Import Base.Prelude Generated.GC06 Model.Stores Model.StoresConc Model.StoresConcOci
-     Proofs.Stores Proofs.StoresConc Proofs.StoresConcOci.
+From Oras Require Import Base.Prelude Generated.GC06 Model.Stores Model.StoresConc Model.StoresConcOci Model.StoresConcFile
+     Proofs.Stores Proofs.StoresConc Proofs.StoresConcOci Proofs.StoresConcOci2 Proofs.StoresConcFile.
 From Coq Require Import Permutation.
 
 (* For every history, the memory store (cas.Memory + resolver.Memory + graph.Memory)
@@ -180,11 +180,62 @@ Theorem C06_quiescent_serialisable_oci_partial :
 Proof. exact quiescent_serialisable_oci. Qed.
 Print Assumptions C06_quiescent_serialisable_oci_partial.
 
+(* The complete statement (the part missing above): with the additional hypothesis that a
+   reference is never another node's digest string (wf2_op), EVERY Resolve answer --
+   names, digest strings (resolver entry or blob fallback), the empty reference -- at
+   quiescence is the one of the sequential order. *)
+Theorem C06_quiescent_serialisable_oci :
+  forall (U : N -> gkey), (forall g, k_dig (U g) = g) ->
+  forall (B : N -> blob) (progs : list (list op)) (sched : list nat),
+  Forall (wf2_op U B) (concat progs) ->
+  let cf := oconf_run (oconf_init progs) sched in
+  oquiescent cf = true ->
+  exists order : list (nat * op),
+    Permutation (map snd order) (concat progs) /\
+    (forall i, log_of i order = nth i progs []) /\
+    let q := fst (run oci_step oci_init (map snd order)) in
+    o_blobs (oc_store cf) = o_blobs q /\
+    (forall r, snd (oci_step (oc_store cf) (Resolve r)) = snd (oci_step q (Resolve r))) /\
+    forall n k, In k (map gk (g_predecessors n (o_graph (oc_store cf)))) <->
+                In k (map gk (g_predecessors n (o_graph q))).
+Proof. exact quiescent_serialisable_oci_full. Qed.
+Print Assumptions C06_quiescent_serialisable_oci.
+
+Example C06_ex_oci_wf2 : Forall (wf2_op ex_U ox_B) (concat ox_progs).
+Proof. exact ox_wf2. Qed.
+
 Example C06_ex_oci_wf : Forall (wf_op ex_U ox_B) (concat ox_progs).
 Proof. exact ox_wf. Qed.
 
 Example C06_ex_oci_quiescent : oquiescent (oconf_run (oconf_init ox_progs) ox_sched) = true.
 Proof. exact ox_quiescent. Qed.
+
+(* ---- concurrency: file store ---- *)
+
+(* Atomic steps: a named Push under its per-name lock (check, write, digestToPath, exists),
+   an unnamed Push's fallback LoadOrStore, the later restoreDuplicates/graph.Index read-back,
+   Exists, resolver.Tag.  For every option setting (repaired or original pushFile,
+   IgnoreNoName, DisableOverwrite) and EVERY schedule run to completion, names,
+   digestToPath, files, fallback storage and resolver are literally those of a sequential
+   order of the same operations in program order, so every Fetch, Exists and Resolve
+   answers alike.  Partial: the graph (Predecessors) is not compared. *)
+Theorem C06_quiescent_serialisable_file_partial :
+  forall (fx ig ov : bool) (progs : list (list op)) (sched : list nat),
+  let cf := fconf_run fx ig ov (fconf_init progs) sched in
+  fquiescent cf = true ->
+  exists order : list (nat * op),
+    Permutation (map snd order) (concat progs) /\
+    (forall i, log_of i order = nth i progs []) /\
+    let q := fst (runf (file_step fx ig ov) file_init (map snd order)) in
+    fcore (fc_store cf) = fcore q /\
+    forall d r, snd (file_step fx ig ov (fc_store cf) (Fetch d)) = snd (file_step fx ig ov q (Fetch d)) /\
+                snd (file_step fx ig ov (fc_store cf) (Exists d)) = snd (file_step fx ig ov q (Exists d)) /\
+                snd (file_step fx ig ov (fc_store cf) (Resolve r)) = snd (file_step fx ig ov q (Resolve r)).
+Proof. exact quiescent_serialisable_file. Qed.
+Print Assumptions C06_quiescent_serialisable_file_partial.
+
+Example C06_ex_file_quiescent : fquiescent (fconf_run true false false (fconf_init fx_progs) fx_sched) = true.
+Proof. exact fx_quiescent. Qed.
 
 (* ---- file store (names, duplicate-name, fallback CAS; options IgnoreNoName, DisableOverwrite) ---- *)
 
